@@ -242,6 +242,36 @@ Theorem C16_gro_csum_kept : forall (canUDP : bool) (offset : N) (bufs : list buf
   csum_kept_ok bufs (s_tw s) (s_bufs s) = true.
 Proof. exact gro_csum_kept. Qed.
 Print Assumptions C16_gro_csum_kept.
+(* The compared data include bit 0 of TCP byte 12 (NS, RFC 3540 / AE, RFC 9768: a flag; the three
+   reserved bits next to it stay masked).  tcpGRO refuses a segment whose low nibble of byte 12 is not
+   zero (repair of gro-tcp-ns-flag-lost-in-merge), so the flag is clear on every member of a coalesced
+   buffer and on every datagram the kernel makes of it. *)
+Theorem C16_gro_ns_kept : forall (canUDP : bool) (offset : N) (bufs : list buf) (j : N),
+  let s := handle_gro canUDP offset bufs in
+  s_err s = false -> merged_into (s_trace s) j ->
+  let b := get_buf (s_bufs s) j in
+  (forall p, In p (kernel_segment (b_hdr b) (b_pkt b)) -> nsbit p = 0) /\
+  (forall m, In m (members (s_trace s) j) -> nsbit (b_pkt (get_buf bufs m)) = 0).
+Proof. exact gro_ns_kept. Qed.
+Print Assumptions C16_gro_ns_kept.
+(* the code before that repair: a segment with byte 12 = 0x51 is merged behind one with 0x50 and
+   leaves the kernel with 0x50; clause 6 is refuted for it, only through that bit *)
+Theorem C16_old_ns_flag_lost :
+  preb 16 ex_ns = true /\ bytes_okb ex_ns = true /\ forallb (fun b => l4_csum_ok (b_pkt b)) ex_ns = true /\
+  (let s := run_old ex_ns in s_err s = false /\ s_tw s = [0] /\
+     map nsbit (segments (s_tw s) (s_bufs s)) = [0; 0] /\ map (fun b => nsbit (b_pkt b)) ex_ns = [0; 1] /\
+     csum_kept_ok ex_ns (s_tw s) (s_bufs s) = false /\ csum_kept_gen false ex_ns (s_tw s) (s_bufs s) = true /\
+     floweq_ok ex_ns (s_tw s) (s_bufs s) = true /\ holdsb ex_ns (s_tw s) (s_bufs s) = false).
+Proof. exact old_ns_flag_lost. Qed.
+Print Assumptions C16_old_ns_flag_lost.
+Theorem C16_old_csum_kept_refuted :
+  ~ (forall canUDP offset bufs, bytes_ok bufs -> let s := Old.handle_gro canUDP offset bufs in
+       s_err s = false -> csum_kept_ok bufs (s_tw s) (s_bufs s) = true).
+Proof. exact old_csum_kept_refuted. Qed.
+Print Assumptions C16_old_csum_kept_refuted.
+Theorem C16_ns_scenario_holds : s_tw (run ex_ns) = [0; 1] /\ s_trace (run ex_ns) = [Inserted; Noop] /\ holds ex_ns = true.
+Proof. exact ns_scenario_holds. Qed.
+Print Assumptions C16_ns_scenario_holds.
 
 (* The strongest true forms of C16_gro_holdsb_statement (which is refuted above):
    (a) for EVERY batch (of bytes, without empty packets, offset >= 10) handleGRO returns no error
